@@ -281,6 +281,9 @@ func readOperationPack(def Definition, repo repository.RepoData, resolvers entit
 		for _, key := range keys {
 			keyring = append(keyring, key.PGPEntity())
 		}
+		if commit.SignedData == nil || commit.Signature == nil {
+			return nil, fmt.Errorf("signature failure: the commit is not signed")
+		}
 		_, err = openpgp.CheckDetachedSignature(keyring, commit.SignedData, commit.Signature, nil)
 		if err != nil {
 			return nil, fmt.Errorf("signature failure: %v", err)
